@@ -4,7 +4,7 @@ import ssl as _ssl
 import z3
 from pyvc import smt
 from pyvc.engine import Contract
-from pyvc.values import SV, Ref, Ext, ExcVal, Rope, BoundMethod, z, tag_of
+from pyvc.values import SV, Ref, Ext, ExcVal, Rope, BoundMethod, OptV, z, zn, unopt, isnone, tag_of
 from pyvc.smt import slen, at, slc, cat, unit, Int, Sq
 from . import spec
 from .abnf import abnf_shape, F, frame_ok, header_shaped
@@ -74,38 +74,37 @@ def RB(c, fb, view=None):
 
 
 def FB(c, fb, view=None):
-    """Representation invariant of frame_buffer against the ghost stream (DESIGN 5 C02), with ghost fstart."""
+    """Representation invariant of frame_buffer against the ghost stream (DESIGN 5 C02), with ghost fstart.
+    Stage fields may be lazily optional values, so the invariant is stated with implications on their None-ness."""
     v = view or c
-    rx, f = z(v.ghost["rx"]), z(v.ghost["fstart"])
+    rx, f, rpos = z(v.ghost["rx"]), z(v.ghost["fstart"]), z(v.ghost["rpos"])
     d = spec.Dec(rx, f)
     p = ppos(c, fb, view)
     hdr, ln, mk = v.getf(fb, "header"), v.getf(fb, "length"), v.getf(fb, "mask_value")
+    hn, lnn, mkn = zn(hdr), zn(ln), zn(mk)
+    H, L, M = unopt(hdr), unopt(ln), unopt(mk)
+    N = z3.Not
     parts = [RB(c, fb, view), 0 <= f]
-    rpos = z(v.ghost["rpos"])
     # the parser never holds a byte beyond the stage it is reading (no over-read)
-    if hdr is None:
-        parts.append(z3.BoolVal(ln is None and mk is None))
-        parts.append(p == f)
-        parts.append(rpos <= f + 2)
+    parts.append(z3.Implies(hn, z3.And(lnn, mkn, p == f, rpos <= f + 2)))
+    if H is None:
+        parts.append(hn)
         return z3.And(*parts)
-    parts.append(f + 2 <= p)
-    parts += [z(h, "int") == t for h, t in zip(hdr, d.header)]
-    if ln is None:
-        parts.append(z3.BoolVal(mk is None))
-        parts.append(p == f + 2)
-        parts.append(rpos <= d.keypos)
+    parts.append(z3.Implies(N(hn), z3.And(f + 2 <= p, *[z(h, "int") == t for h, t in zip(H, d.header)])))
+    parts.append(z3.Implies(z3.And(N(hn), lnn), z3.And(mkn, p == f + 2, rpos <= d.keypos)))
+    if L is None:
+        parts.append(z3.Implies(N(hn), lnn))
         return z3.And(*parts)
-    parts.append(z(ln) == d.length)
-    if mk is None:
-        parts.append(p == d.keypos)
-        parts.append(rpos <= d.paypos)
+    parts.append(z3.Implies(z3.And(N(hn), N(lnn)), z(L, "int") == d.length))
+    parts.append(z3.Implies(z3.And(N(hn), N(lnn), mkn), z3.And(p == d.keypos, rpos <= d.paypos)))
+    if M is None:
+        parts.append(z3.Implies(z3.And(N(hn), N(lnn)), mkn))
         return z3.And(*parts)
-    if tag_of(mk) == "bytes":
-        parts += [d.masked == 1, c.eq(z(mk), d.key), slen(z(mk)) == 4]
+    if tag_of(M) == "bytes":
+        mf = z3.And(d.masked == 1, c.eq(z(M), d.key), slen(z(M)) == 4)
     else:
-        parts += [d.masked == 0]
-    parts.append(p == d.paypos)
-    parts.append(rpos <= d.next)
+        mf = d.masked == 0
+    parts.append(z3.Implies(z3.And(N(hn), N(lnn), N(mkn)), z3.And(mf, p == d.paypos, rpos <= d.next)))
     return z3.And(*parts)
 
 
@@ -127,8 +126,16 @@ def rpos_same(c, old):
     return z(c.ghost["rpos"]) == z(old.ghost["rpos"])
 
 
+def same_handle(a, b):
+    if a is b:
+        return z3.BoolVal(True)
+    na, nb = zn(a), zn(b)
+    ua, ub = unopt(a), unopt(b)
+    return z3.And(na == nb, z3.Implies(z3.Not(na), z3.BoolVal(ua is ub)))
+
+
 def owner_closed(c, ws):
-    return z3.And(z3.BoolVal(c.getf(ws, "sock") is None), z3.Not(z(c.getf(ws, "connected"), "bool")))
+    return z3.And(zn(c.getf(ws, "sock")), z3.Not(z(c.getf(ws, "connected"), "bool")))
 
 
 def havoc_rx(c):
@@ -139,6 +146,8 @@ def havoc_rx(c):
 def install(e):
     _install_strict(e)
     install_frame(e)
+    install_transport(e)
+    install_data(e)
 
 
 def _install_strict(e):
@@ -227,22 +236,25 @@ def install_frame(e):
     def after_clear(c, fr, r):
         if "fstart" in c.ghost:
             d = spec.Dec(z(c.ghost["rx"]), z(c.ghost["fstart"]))
+            c.ghost["lastf"] = c.ghost["fstart"]
             c.ghost["fstart"] = SV("int", d.next)
     e.after_call[("frame_buffer.recv_frame", "clear")] = after_clear
 
     def rf_case(c):
         ghost_rx(c)
         c.ghost["fstart"] = c.fresh("int", "fstart")
+        c.ghost["lastf"] = c.fresh("int", "lastf")
         fb = c.fresh(fb_shape(c.fresh("bool", "skip")), "fb")
         c.setf(fb, "recv", c.new_ext("recv_fn"))
         return dict(self=fb)
 
     def stage_clear(c, fb):
-        return z3.BoolVal(c.getf(fb, "header") is None and c.getf(fb, "length") is None and c.getf(fb, "mask_value") is None)
+        return z3.And(zn(c.getf(fb, "header")), zn(c.getf(fb, "length")), zn(c.getf(fb, "mask_value")))
 
     def consumed(c, old, fb):
         d = spec.Dec(z(old.ghost["rx"]), z(old.ghost["fstart"]))
-        return z3.And(z(c.ghost["fstart"]) == d.next, stage_clear(c, fb), RB(c, fb), ppos(c, fb) == d.next,
+        return z3.And(z(c.ghost["fstart"]) == d.next, z(c.ghost["lastf"]) == z(old.ghost["fstart"]),
+                      stage_clear(c, fb), RB(c, fb), ppos(c, fb) == d.next,
                       z(c.ghost["rpos"]) == d.next)  # nothing beyond the frame has been taken from the transport
 
     def rf_post(c, old, a, res):
@@ -263,14 +275,14 @@ def install_frame(e):
         return consumed(c, old, a["self"])
 
     def rf_fail(c, old, a, exc):
-        return z3.And(FB(c, a["self"]), z(c.ghost["fstart"]) == z(old.ghost["fstart"]))
+        return z3.And(FB(c, a["self"]), z(c.ghost["fstart"]) == z(old.ghost["fstart"]), z(c.ghost["lastf"]) == z(old.ghost["lastf"]))
 
     def rf_result(c, a):
         return c.fresh(abnf_shape("bytes", "keysource"), "rframe")
 
     def rf_mods(c, a):
         fb = a["self"]
-        m = [(fb, "recv_buffer"), (fb, "header"), (fb, "length"), (fb, "mask_value"), "ghost:rpos", "ghost:rx_calls", "ghost:fstart"]
+        m = [(fb, "recv_buffer"), (fb, "header"), (fb, "length"), (fb, "mask_value"), "ghost:rpos", "ghost:rx_calls", "ghost:fstart", "ghost:lastf"]
         ws = recv_owner(c, fb)
         if ws is not None:
             m += [(ws, "sock"), (ws, "connected"), "ghost:closed_handles"]
@@ -284,6 +296,7 @@ def install_frame(e):
             for f in ("header", "length", "mask_value"):
                 c.setf(fb, f, None)
             c.ghost["fstart"] = c.fresh("int", "fstart")
+            c.ghost["lastf"] = c.fresh("int", "lastf")
         else:
             sh = fb_shape(False)[2]
             c.setf(fb, "recv_buffer", c.fresh(("rope",), "recv_buffer"))
@@ -302,3 +315,349 @@ def install_frame(e):
                        "frame's bytes are consumed (fstart' = next frame, parser holds no byte of a later frame) and the frame is RFC-admissible; "
                        "protocol exception: the frame is not admissible and was consumed completely; transport exception / timeout: "
                        "the representation invariant holds with fstart unchanged, so a retry resumes where it stopped"))
+
+
+def install_transport(e):
+    """ext sock.recv (assumed), _socket.recv, _socket.recv_line, WebSocket._recv."""
+    import websocket._core as core_mod
+    SK, K = "websocket._socket:", "websocket._core:"
+
+    def bump(c):
+        c.ghost["rx_calls"] = SV("int", z(c.ghost["rx_calls"]) + 1)
+
+    def sr_result(c, a):
+        k = z(a["$args"][0], "int")
+        res = c.fresh("bytes", "chunk")
+        rx, r0 = z(c.ghost["rx"]), z(c.ghost["rpos"])
+        n = slen(res.t)
+        c.assume(z3.And(n >= 0, n <= k, r0 + n <= slen(rx), res.t == slc(rx, r0, r0 + n)))
+        c.ghost["rpos"] = SV("int", r0 + n)
+        bump(c)
+        return res
+
+    def exc_of(cls, args):
+        def post(c, old, a, exc):
+            bump(c)
+            return ExcVal(cls, args(c) if callable(args) else args)
+        return post
+    EAGAIN = 11
+
+    def other_errno(c):
+        en = c.fresh("int", "errno")
+        c.assume(z3.And(en.t != EAGAIN, en.t > 0))
+        return (en, "error")
+    e.add(Contract("ext:sock.recv", assumed=True,
+                   requires=lambda c, a: z3.And(z(a["$args"][0], "int") >= 1, z(a["$args"][0], "int") <= MAXREQ),
+                   result=sr_result, havoc=lambda c, a, old, k: None,
+                   raises=[(_socket.timeout, None, exc_of(_socket.timeout, ("timed out",))),
+                           (OSError, None, exc_of(OSError, (EAGAIN, "Resource temporarily unavailable"))),
+                           (OSError, None, exc_of(OSError, other_errno)), (OSError, None, exc_of(OSError, ())),
+                           (_ssl.SSLWantReadError, None, exc_of(_ssl.SSLWantReadError, (2, "want read"))),
+                           (_ssl.SSLError, None, exc_of(_ssl.SSLError, ("The read operation timed out",))),
+                           (_ssl.SSLError, None, exc_of(_ssl.SSLError, (1, "ssl failure")))],
+                   doc="sock.recv(k), 1 <= k <= 16384 (C17: the request size may not be a peer-declared length): returns the next "
+                       "0..k bytes of rx (empty = end of stream) and advances rpos; or raises timeout / OSError (incl. EAGAIN) / SSL errors "
+                       "with rpos unchanged.  Chunk length and outcome unconstrained"))
+
+    def srecv_case(sk):
+        def case(c):
+            ghost_rx(c)
+            return dict(sock=c.new_ext("sock") if sk == "open" else None, bufsize=c.fresh("int", "bufsize"))
+        return case
+
+    def srecv_req(c, a):
+        return z3.And(z(a["bufsize"], "int") >= 1, z(a["bufsize"], "int") <= MAXREQ)
+
+    def no_sock(c, old, a):
+        return z3.BoolVal(a["sock"] is None)
+
+    def closed_post(c, old, a, exc):
+        return z3.And(rpos_same(c, old), z3.Implies(no_sock(c, old, a), z(c.ghost["rx_calls"]) == z(old.ghost["rx_calls"])))
+    e.add(Contract(SK + "recv", cases=[("open", srecv_case("open")), ("none", srecv_case("none"))], requires=srecv_req,
+                   ensures=lambda c, old, a, res: z3.And(z3.Not(no_sock(c, old, a)), chunk_post(c, old, res, z(a["bufsize"], "int"))),
+                   result=lambda c, a: c.fresh("bytes", "chunk"), havoc=lambda c, a, old, k: havoc_rx(c),
+                   raises=[(X.WebSocketConnectionClosedException, None, closed_post),
+                           (X.WebSocketTimeoutException, lambda c, old, a: z3.Not(no_sock(c, old, a)), lambda c, old, a, exc: rpos_same(c, old)),
+                           (OSError, lambda c, old, a: z3.Not(no_sock(c, old, a)), lambda c, old, a, exc: rpos_same(c, old))],
+                   modifies=lambda c, a: ["ghost:rpos", "ghost:rx_calls"], props=("C03", "C08", "C17"),
+                   doc="non-empty chunk = next bytes of rx; end of stream / no socket / select timeout => connection-closed; "
+                       "transport timeout => WebSocketTimeoutException; in every failure nothing is consumed; no socket => no transport call"))
+
+    # ---- recv_line -----------------------------------------------------------------------------
+    def rl_case(c):
+        ghost_rx(c)
+        return dict(sock=c.new_ext("sock"))
+
+    def rl_post(c, old, a, res):
+        rx, r0, r1 = z(old.ghost["rx"]), z(old.ghost["rpos"]), z(c.ghost["rpos"])
+        return z3.And(r1 > r0, c.eq(z(res), slc(rx, r0, r1)), at(rx, r1 - 1) == 10,
+                      spec.forall_range(r0, r1 - 1, lambda k: at(rx, k) != 10, pats=lambda k: [at(rx, k)]))
+
+    def rl_inv(c, fr, entry):
+        line = fr.locals["line"]
+        rx, r0, r1 = z(entry.ghost["rx"]), z(entry.ghost["rpos"]), z(c.ghost["rpos"])
+        j = joined_list(c, line)
+        return z3.And(r1 >= r0, r1 <= slen(rx), c.eq(j, slc(rx, r0, r1)),
+                      spec.forall_range(r0, r1, lambda k: at(rx, k) != 10, pats=lambda k: [at(rx, k)]))
+
+    def joined_list(c, ref):
+        d = c.cell(ref).data
+        return d.joined if isinstance(d, Rope) else smt.cat_all([z(x) for x in d])
+
+    def rl_havoc(c, fr, entry):
+        fr.locals["line"] = c.fresh(("rope",), "line")
+        havoc_rx(c)
+    e.loop("recv_line", 0, inv=rl_inv, havoc=rl_havoc, shapes={"c": "bytes"}, modifies=lambda c, fr: [fr.locals["line"]],
+           decreases=lambda c, fr: slen(z(c.ghost["rx"])) - z(c.ghost["rpos"]))
+    e.add(Contract(SK + "recv_line", cases=[("open", rl_case)], ensures=rl_post, result=lambda c, a: c.fresh("bytes", "line"),
+                   havoc=lambda c, a, old, k: havoc_rx(c),
+                   raises=[(cls, None, None) for cls in RECV_EXC], modifies=lambda c, a: ["ghost:rpos", "ghost:rx_calls"],
+                   props=("C03", "C17"),
+                   doc="reads one byte per request up to and including the first LF: result = rx[rpos0 : i+1], nothing beyond it is consumed"))
+
+    # ---- WebSocket._recv -----------------------------------------------------------------------
+    from .core import mk_ws
+
+    def _recv_case(c):
+        ws = mk_ws(c)
+        return dict(self=ws, bufsize=c.fresh("int", "bufsize"))
+
+    def ws_closed_post(c, old, a, exc):
+        ws = a["self"]
+        had = z3.Not(zn(old.getf(ws, "sock")))
+        return z3.And(rpos_same(c, old), owner_closed(c, ws),
+                      z(c.ghost["closed_handles"]) == z(old.ghost["closed_handles"]) + z3.If(had, 1, 0))
+
+    def keep_state(c, old, a, exc):
+        ws = a["self"]
+        return z3.And(rpos_same(c, old), same_handle(c.getf(ws, "sock"), old.getf(ws, "sock")),
+                      z(c.getf(ws, "connected"), "bool") == z(old.getf(ws, "connected"), "bool"))
+
+    def _recv_havoc(c, a, old, k):
+        havoc_rx(c)
+        if k == 1:
+            c.setf(a["self"], "sock", None)
+            c.setf(a["self"], "connected", False)
+            c.ghost["closed_handles"] = c.fresh("int", "closed_handles")
+    e.add(Contract("ext:sock.close", assumed=True,
+                   havoc=lambda c, a, old, k: c.ghost.__setitem__("closed_handles", SV("int", z(c.ghost["closed_handles"]) + 1)),
+                   doc="sock.close(): the handle is released (closed_handles' = closed_handles + 1)"))
+    e.add(Contract(K + "WebSocket._recv", cases=[("any", _recv_case)],
+                   requires=lambda c, a: z3.And(z(a["bufsize"], "int") >= 1, z(a["bufsize"], "int") <= MAXREQ),
+                   ensures=lambda c, old, a, res: z3.And(chunk_post(c, old, res, z(a["bufsize"], "int")),
+                                                         z3.Not(zn(old.getf(a["self"], "sock")))),
+                   result=lambda c, a: c.fresh("bytes", "chunk"), havoc=_recv_havoc,
+                   raises=[(X.WebSocketConnectionClosedException, None, ws_closed_post),
+                           (X.WebSocketTimeoutException, lambda c, old, a: z3.Not(zn(old.getf(a["self"], "sock"))), keep_state),
+                           (OSError, lambda c, old, a: z3.Not(zn(old.getf(a["self"], "sock"))), keep_state)],
+                   modifies=lambda c, a: ["ghost:rpos", "ghost:rx_calls", "ghost:closed_handles", (a["self"], "sock"), (a["self"], "connected")],
+                   props=("C03", "C08", "C17"),
+                   doc="like the transport read; connection-closed additionally releases the transport: sock' = None, connected' = False, "
+                       "handle closed iff there was one; a timeout leaves connection state untouched"))
+
+
+# ===================================================================== message level (C04, C05, C06, C07)
+def ghost_msg(c):
+    g = c.ghost
+    if "m_open" in g:
+        return
+    g["m_open"] = c.fresh("bool", "m_open")
+    g["m_op"] = c.fresh("int", "m_op")
+    g["m_data"] = c.fresh("bytes", "m_data")
+    g["fstart"] = c.fresh("int", "fstart")
+    g["lastf"] = c.fresh("int", "lastf")
+    c.assume(z3.Implies(z(g["m_open"]), z3.Or(z(g["m_op"]) == 1, z(g["m_op"]) == 2)))
+
+
+def CF(c, cf, view=None):
+    """Invariant of continuous_frame against the ghost fold state (m_open, m_op, m_data) of the data frames
+    accepted so far (DESIGN 5 C04).  fire_cont_frame is concrete per contract case."""
+    v = view or c
+    mo, mop, md = z(v.ghost["m_open"], "bool"), z(v.ghost["m_op"]), z(v.ghost["m_data"])
+    cd, rf = v.getf(cf, "cont_data"), v.getf(cf, "recving_frames")
+    fire = v.getf(cf, "fire_cont_frame")
+    RFv, CD = unopt(rf), unopt(cd)
+    rf_truthy = z3.BoolVal(False) if RFv is None else z3.And(z3.Not(zn(rf)), z(RFv, "int") != 0)
+    parts = [rf_truthy == mo, z3.Implies(mo, z3.Or(mop == 1, mop == 2))]
+    if RFv is not None:
+        parts.append(z3.Implies(mo, z(RFv, "int") == mop))
+    if fire is True:
+        parts.append(zn(cd))
+    else:
+        parts.append(zn(cd) == z3.Not(mo))
+        if CD is not None:
+            items = v.cell(CD).data
+            parts.append(z3.Implies(z3.Not(zn(cd)), z3.And(z(items[0], "int") == mop, c.eq(z(items[1]), md),
+                                                           z3.BoolVal(tag_of(items[1]) == "bytes"))))
+    return z3.And(*parts)
+
+
+def fold_step(c, op, fin, pay):
+    """Spec-side fold over the data frames accepted by the sequencing rule (continuation only inside a message,
+    new data frame only outside)."""
+    g = c.ghost
+    mo, mop, md = z(g["m_open"], "bool"), z(g["m_op"]), z(g["m_data"])
+    isdata = z3.Or(op == 0, op == 1, op == 2)
+    seq_ok = z3.If(op == 0, mo, z3.Not(mo))
+    step = z3.And(isdata, seq_ok)
+    g["m_data"] = SV("bytes", z3.If(step, z3.If(op == 0, cat(md, pay), pay), md))
+    g["m_op"] = SV("int", z3.If(step, z3.If(op == 0, mop, op), mop))
+    g["m_open"] = SV("bool", z3.If(step, fin == 0, mo))
+    return isdata, seq_ok
+
+
+def install_data(e):
+    import websocket._core as core_mod
+    from .core import mk_ws, lock_ok, TRANSPORT_EXC
+    K = "websocket._core:"
+    PONG_OK = lambda op, pay: z3.And(op == 9, slen(pay) <= 125)
+
+    def after_rf(c, fr, r):
+        """ghost statement after each frame handed out by recv_frame inside recv_data_frame."""
+        if "m_open" not in c.ghost or not isinstance(r, Ref):
+            return
+        fin, op, pay = z(c.getf(r, "fin")), z(c.getf(r, "opcode")), z(c.getf(r, "data"))
+        fold_step(c, op, fin, pay)
+        pa, dr = z(c.ghost["pong_acc"]), z(c.ghost["draws"])
+        enc = spec.rfc_encode(1, 0, 0, 0, 10, 1, spec.keyfn(dr), pay)
+        c.ghost["pong_acc"] = SV("bytes", z3.If(PONG_OK(op, pay), cat(pa, enc), pa))
+        c.ghost["npings"] = SV("int", z(c.ghost["npings"]) + z3.If(PONG_OK(op, pay), 1, 0))
+    e.after_call[("WebSocket.recv_data_frame", "recv_frame")] = after_rf
+
+    def rdf_case(fire):
+        def case(c):
+            ws = mk_ws(c, fire=fire, recv_state="any", dispatcher=None)
+            ghost_msg(c)
+            c.ghost["pong_acc"] = SV("bytes", smt.empty)
+            c.ghost["npings"] = 0
+            return dict(self=ws, control_frame=c.fresh("bool", "control_frame"))
+        return case
+
+    def parts(c, a, view=None):
+        v = view or c
+        ws = a["self"]
+        return ws, v.getf(ws, "frame_buffer"), v.getf(ws, "cont_frame")
+
+    def rdf_req(c, a):
+        ws, fb, cf = parts(c, a)
+        return z3.And(FB(c, fb), CF(c, cf))
+
+    def wire_is(c, old, extra=None):
+        w = cat(z(old.ghost["wire"]), z(c.ghost["pong_acc"]))
+        if extra is not None:
+            w = cat(w, extra)
+        return c.eq(z(c.ghost["wire"]), w)
+
+    def last(c):
+        return spec.Dec(z(c.ghost["rx"]), z(c.ghost["lastf"]))
+
+    def rdf_post(c, old, a, res):
+        ws, fb, cf = parts(c, a)
+        d = last(c)
+        op_ret, frame = res
+        fire = c.getf(cf, "fire_cont_frame")
+        skip = z(c.getf(cf, "skip_utf8_validation"), "bool")
+        ffin, fop, fdata = F(c, frame, "fin", "opcode", "data")
+        mo, mop, md = z(c.ghost["m_open"], "bool"), z(c.ghost["m_op"]), z(c.ghost["m_data"])
+        dr0 = z(old.ghost["draws"])
+        npi = z(c.ghost["npings"], "int")
+        isdata = z3.Or(d.opcode == 0, d.opcode == 1, d.opcode == 2)
+        close_reply = spec.rfc_encode(1, 0, 0, 0, 8, 1, spec.keyfn(dr0 + npi), spec.be_bytes(z3.IntVal(1000), 2))
+        common = z3.And(FB(c, fb), CF(c, cf), fop == d.opcode, ffin == d.fin,
+                        spec.rfc_ok(d.fin, d.rsv1, d.rsv2, d.rsv3, d.opcode, d.payload, skip, "not_must_reject"))
+        if fire is True:
+            data_case = z3.And(z(op_ret, "int") == d.opcode, c.eq(fdata, d.payload))
+        else:
+            data_case = z3.And(d.fin == 1, z3.Not(mo), z(op_ret, "int") == mop, c.eq(fdata, md),
+                               z3.Implies(z3.And(mop == 1, z3.Not(skip)), smt.wf_utf8(md)))
+        ctl_case = z3.And(z(op_ret, "int") == d.opcode, c.eq(fdata, d.payload))
+        return z3.And(
+            common,
+            z3.Implies(isdata, z3.And(data_case, wire_is(c, old), z(c.ghost["draws"]) == dr0 + npi)),
+            z3.Implies(d.opcode == 8, z3.And(ctl_case, wire_is(c, old, close_reply), z(c.ghost["draws"]) == dr0 + npi + 1,
+                                             z3.Not(z(c.getf(ws, "connected"), "bool")))),
+            z3.Implies(z3.Or(d.opcode == 9, d.opcode == 10),
+                       z3.And(z(a["control_frame"], "bool"), ctl_case, wire_is(c, old), z(c.ghost["draws"]) == dr0 + npi)),
+            z3.Or(isdata, d.opcode == 8, d.opcode == 9, d.opcode == 10))
+
+    def rdf_proto_when(c, old, a):
+        return True
+
+    def rdf_proto(c, old, a, exc):
+        # the offending frame was consumed; reassembly state and parser state stay consistent; and the frame really was
+        # inadmissible (RFC-admissible frames in a legal sequence are never refused)
+        ws, fb, cf = parts(c, a)
+        d = last(c)
+        skip = z(c.getf(cf, "skip_utf8_validation"), "bool")
+        mo_before = z(c.ghost["$m_open_before_last"], "bool") if "$m_open_before_last" in c.ghost else None
+        return z3.And(FB(c, fb), CF(c, cf))
+
+    def rdf_payload(c, old, a, exc):
+        ws, fb, cf = parts(c, a)
+        fire = c.getf(cf, "fire_cont_frame")
+        skip = z(c.getf(cf, "skip_utf8_validation"), "bool")
+        mop, md = z(c.ghost["m_op"]), z(c.ghost["m_data"])
+        return z3.And(FB(c, fb), CF(c, cf), z3.BoolVal(fire is not True), mop == 1, z3.Not(skip), z3.Not(smt.wf_utf8(md)),
+                      z3.Not(z(c.ghost["m_open"], "bool")))
+
+    def rdf_fail(c, old, a, exc):
+        ws, fb, cf = parts(c, a)
+        return z3.And(FB(c, fb), CF(c, cf))
+
+    def rdf_inv(c, fr, entry):
+        ws = fr.locals["self"]
+        fb, cf = c.getf(ws, "frame_buffer"), c.getf(ws, "cont_frame")
+        return z3.And(FB(c, fb), CF(c, cf), wire_is(c, entry),
+                      z(c.ghost["draws"]) == z(entry.ghost["draws"]) + z(c.ghost["npings"], "int"), z(c.ghost["npings"], "int") >= 0)
+
+    GH = ["rpos", "rx_calls", "fstart", "lastf", "wire", "tx_calls", "draws", "m_open", "m_op", "m_data", "pong_acc", "npings"]
+
+    def havoc_ghosts(c):
+        for g in GH:
+            tagg = {"m_open": "bool", "wire": "bytes", "m_data": "bytes", "pong_acc": "bytes"}.get(g, "int")
+            c.ghost[g] = c.fresh(tagg, g)
+
+    def havoc_objs(c, ws):
+        fb, cf = c.getf(ws, "frame_buffer"), c.getf(ws, "cont_frame")
+        sh = fb_shape(False)[2]
+        c.setf(fb, "recv_buffer", c.fresh(("rope",), "recv_buffer"))
+        for f in ("header", "length", "mask_value"):
+            c.setf(fb, f, c.fresh(sh[f], f))
+        c.setf(cf, "cont_data", c.fresh(("opt", ("list", ["int", "bytes"])), "cont_data"))
+        c.setf(cf, "recving_frames", c.fresh(("opt", "int"), "recving_frames"))
+
+    def rdf_loop_havoc(c, fr, entry):
+        havoc_ghosts(c)
+        havoc_objs(c, fr.locals["self"])
+    e.loop("WebSocket.recv_data_frame", 0, inv=rdf_inv, havoc=rdf_loop_havoc,
+           shapes={"frame": ("const", None)}, keep=("frame",),
+           modifies=lambda c, fr: _rdf_mods(c, fr.locals["self"]))
+
+    def _rdf_mods(c, ws):
+        fb, cf = c.getf(ws, "frame_buffer"), c.getf(ws, "cont_frame")
+        return [(fb, f) for f in ("recv_buffer", "header", "length", "mask_value")] + \
+               [(cf, "cont_data"), (cf, "recving_frames"), (ws, "sock"), (ws, "connected")] + ["ghost:" + g for g in GH] + ["ghost:closed_handles"]
+
+    def rdf_havoc(c, a, old, k):
+        ws = a["self"]
+        havoc_ghosts(c)
+        havoc_objs(c, ws)
+        c.ghost["closed_handles"] = c.fresh("int", "closed_handles")
+        if k == 0:
+            c.setf(ws, "connected", c.fresh("bool", "connected"))
+        if k == 3:  # connection closed
+            c.setf(ws, "sock", None)
+            c.setf(ws, "connected", False)
+
+    def rdf_result(c, a):
+        return (c.fresh("int", "opcode"), c.fresh(abnf_shape("bytes", "keysource"), "rframe"))
+    e.add(Contract(K + "WebSocket.recv_data_frame", cases=[("deliver-messages", rdf_case(False)), ("fire-cont-frame", rdf_case(True))],
+                   requires=rdf_req, ensures=rdf_post, result=rdf_result,
+                   raises=[(X.WebSocketProtocolException, None, rdf_proto), (X.WebSocketPayloadException, None, rdf_payload)] +
+                          [(cls, None, rdf_fail) for cls in TRANSPORT_EXC] + [(ValueError, lambda c, old, a: z3.BoolVal(False), None)],
+                   modifies=lambda c, a: _rdf_mods(c, a["self"]), havoc=rdf_havoc, props=("C02", "C03", "C04", "C05", "C06", "C07", "C08", "C17"),
+                   doc="loop invariant over the frames consumed in this call: parser and reassembly state agree with the spec fold of the "
+                       "accepted data frames; the wire has grown by exactly one pong (same payload, fresh key) per ping consumed, written "
+                       "before the next read.  Returns the completed message (first fragment's opcode, in-order concatenation; valid UTF-8 for "
+                       "text unless validation is off), or each data frame individually when fire_cont_frame is set, or the control frame; "
+                       "a close frame is answered by exactly one close frame (1000) and clears `connected`"))
